@@ -1,6 +1,7 @@
 import CM.Proofs.ParseScanMain
 import CM.Ops.TailHyp
 import CM.Proofs.ParseScanTail
+import CM.Proofs.ParseAsmCheck
 /-
 C02 / C04, inline halves, connected to the block phase (session 4, sixth wave; 40 proof files `ParseScan*`).
 
@@ -19,9 +20,11 @@ C02 / C04, inline halves, connected to the block phase (session 4, sixth wave; 4
    continues the paragraph, not yet a block-phase invariant) and `TailSafe` for ATX headings (the content run is followed by white
    space, `#` or the end; `parseATXHeading` cuts there) - and the content-less heading `# ` is excluded (the inline phase returns
    no child there: `PSh.parseInlines_empty`).
-4. `parse_spans_of`, `parse_noPanic_of`: the whole-`Parse` statements given `ContsOK2`/`ContsNP` of the roots' trees. The assembly
-   from per-container facts (3) to these per-tree hypotheses, and the two tail facts, are what is still missing for a hypothesis-free
-   theorem; until then `Spec.spansOK` and the totality oracle evaluated on the implementation's trees decide these clauses.
+4. `parse_spans_of_tails`, `parse_noPanic_of_tails` (4 files `ParseAsm*`): the whole-`Parse` statements with ONLY the two tail facts
+   as hypotheses - a decidable proposition about the document (`ParseTails`), evaluated by the op `tailhyp` for the documents of every
+   C02 run (`tail_monitor_exact`), true of 1.5 million exhaustively enumerated short documents, and instantiated by `decide +kernel`
+   on a five-root document (`ParseAsmCheck.lean`). Proving the two tail facts as block-phase invariants is what is still missing for
+   a hypothesis-free theorem; `Spec.spansOK` and the totality oracle evaluated on the implementation's trees also decide these clauses.
 -/
 namespace CM.Props.C02
 open CM CM.Model CM.Gen CM.Spec CM.Model.Inl
@@ -52,6 +55,20 @@ theorem blockphase_tokNP : type_of% @PSc.blockphase_tokNP := @PSc.blockphase_tok
 theorem parse_spans_of : type_of% @PSc.parse_spansOK_nodes_of := @PSc.parse_spansOK_nodes_of
 theorem parse_noPanic_of : type_of% @PSc.parse_rewrite_noPanic_of := @PSc.parse_rewrite_noPanic_of
 
+/-- **C02, inline half, for the whole of `Parse`, with only the two tail facts as hypotheses** (the assembly: `conts` and `rewriteE`
+    share their recursion, so the per-container facts suffice; the content-less heading is handled by `parseInlines_empty`). -/
+theorem parse_spans_of_tails : type_of% @PSc.parse_spansOK_nodes_of_tails := @PSc.parse_spansOK_nodes_of_tails
+/-- **C04, inline half, for the whole of `Parse`**, same hypotheses: no root's inline phase reaches a Go panic site. -/
+theorem parse_noPanic_of_tails : type_of% @PSc.parse_rewrite_noPanic_of_tails := @PSc.parse_rewrite_noPanic_of_tails
+/-- The same with the hypothesis as one decidable proposition about the document (`ParseTails`). -/
+theorem parse_spans_of_parseTails : type_of% @PSc.parse_spansOK_nodes_of_parseTails := @PSc.parse_spansOK_nodes_of_parseTails
+theorem parse_noPanic_of_parseTails : type_of% @PSc.parse_rewrite_noPanic_of_parseTails := @PSc.parse_rewrite_noPanic_of_parseTails
+/-- The span / no-panic theorems quantified over the containers the inline phase actually visits, empty runs allowed. -/
+theorem rewrite_spans_E : type_of% @PSc.rewriteE_spansOK_nodes_E := @PSc.rewriteE_spansOK_nodes_E
+theorem rewrite_noPanic_E : type_of% @PSc.rewriteE_noPanic_E := @PSc.rewriteE_noPanic_E
+/-- `TokNP` side for every block-phase root, no hypothesis. -/
+theorem blockphase_contsNPE : type_of% @PSc.blockphase_contsNPE := @PSc.blockphase_contsNPE
+
 /-- Every container whose last child ends where the root's source ends has all its scanner facts, no tail hypothesis. -/
 theorem blockphase_contOK2_atEnd : type_of% @PSc.blockphase_contOK2_atEnd := @PSc.blockphase_contOK2_atEnd
 /-- Line-level core of `TailSafe` for ATX headings: the content `parseATXHeading` returns ends before white space, `#` or the end of
@@ -60,5 +77,7 @@ theorem parseATXHeading_after : type_of% @PSc.parseATXHeading_after := @PSc.pars
 
 /-- The run-time monitor `tailhyp` (asked for the documents of every C02 run) computes exactly the two tail facts. -/
 theorem tail_monitor_exact : type_of% @CM.Ops.tailsOKb_iff := @CM.Ops.tailsOKb_iff
+/-- … and its `ok` answer is the hypothesis `ParseTails` of `parse_spans_of_parseTails` / `parse_noPanic_of_parseTails`. -/
+theorem tail_monitor_gives_parseTails : type_of% @CM.Ops.tailsOKb_parseTails := @CM.Ops.tailsOKb_parseTails
 
 end CM.Props.C02
